@@ -30,8 +30,7 @@ def explore(ctx, cls, f: FunctionInfo, env: dict, marks: tuple = (), max_runs: i
                     it.undecided.append(f"randint bounds not followed ({lo!r}, {hi!r})")
                     return UNKNOWN
                 if lo > hi:
-                    it.trace.append(Effect("raise", f"ValueError: randint({lo}, {hi}) has an empty range", node=call))
-                    raise _Return(UNKNOWN)
+                    it.throw(f"ValueError: randint({lo}, {hi}) has an empty range", call)
                 k = len(draws)
                 v = prefix[k] if k < len(prefix) else lo
                 draws.append((lo, hi, v))
